@@ -467,11 +467,20 @@ class Evaluator:
             if b[0] == 'deref' and isinstance(b[1], tuple) and b[1][0] == 'res':
                 info = st.results.get(b[1][1])
                 # *emplace_result of a map-like container: the stored (key, value) pair
-                if info and info[1] in ('emplace', 'insert', 'try_emplace') and info[3] in ('multimap',) and len(info[2]) >= 2:
-                    if name == 'first':
-                        return info[2][0]
-                    if name == 'second' and ('fld', b, name) not in st.store:
-                        return info[2][1]
+                if info and info[1] in ('emplace', 'insert', 'try_emplace', 'emplace_hint') and info[3] in ('multimap', 'map'):
+                    kv = list(info[2])
+                    if info[1] == 'emplace_hint' or (info[1] == 'insert' and len(kv) == 2 and not (isinstance(kv[0], tuple) and kv[0] and kv[0][0] in ('pair', 'ctor'))):
+                        kv = kv[1:]          # leading hint
+                    if len(kv) == 1 and isinstance(kv[0], tuple) and kv[0]:
+                        if kv[0][0] == 'pair' and len(kv[0]) == 3:
+                            kv = [kv[0][1], kv[0][2]]
+                        elif kv[0][0] == 'ctor' and len(kv[0]) > 2 and len(kv[0][2]) == 2:
+                            kv = list(kv[0][2])
+                    if len(kv) >= 2:
+                        if name == 'first':
+                            return kv[0]
+                        if name == 'second' and ('fld', b, name) not in st.store:
+                            return kv[1]
         return ('fld', b, name)
 
     def e_BinaryOperator(self, n, st):
@@ -765,6 +774,10 @@ class Evaluator:
         if name == 'make_pair':
             for st2, ts in self.eval_args(args, st):
                 yield st2, ('pair', ts[0], ts[1])
+            return
+        if name == 'make_optional' and len(args) == 1:
+            for st2, ts in self.eval_args(args, st):
+                yield st2, ('ctor', qt(n), (ts[0],))
             return
         if name == 'now':
             k = st.fresh()
